@@ -254,7 +254,7 @@ func runCoreHistory(s *coreSim, rng *vrng, p coreProfile) (info coreCaseInfo) {
 			}
 			if p.reconf > 0 && rng.chance(p.reconf) {
 				if rng.chance(50) {
-					s.NoDelay(e, rng.pick(-1, 0, 1), rng.pick(-1, 1, 10, 40, 6000), rng.pick(-1, 0, 1, 2), rng.pick(-1, 0, 1))
+					s.NoDelay(e, rng.pick(-1, 0, 1), rng.pick(-1, 0, 1, 9, 10, 11, 40, 4999, 5000, 5001, 6000), rng.pick(-1, 0, 1, 2), rng.pick(-1, 0, 1))
 				} else {
 					s.WndSize(e, rng.pick(0, 1, 2, 32, 128), rng.pick(0, 1, 2, 32, 128))
 				}
